@@ -302,20 +302,28 @@ func VerifC16Replace() {
 
 // VerifC16SplitJoin: split and join are inverse on separator-free pieces.
 func VerifC16SplitJoin() {
-	p1, p2 := nd.String(1+nd.Choice(2)), nd.String(1+nd.Choice(2))
-	sep := ","
-	for i := 0; i < len(p1); i++ {
-		nd.Assume(p1[i] != ',')
+	sep := []string{",", " ", "ab"}[nd.Choice(3)]
+	// the first piece may be empty (the string then starts with the separator)
+	p1, p2 := nd.String(nd.Choice(3)), nd.String(1+nd.Choice(2))
+	if sep == " " {
+		// the whitespace separator goes through a regular expression (native): concrete pieces
+		p1 = []string{"", "x", "é"}[nd.Choice(3)]
+		p2 = []string{"y", "zz"}[nd.Choice(2)]
 	}
-	for i := 0; i < len(p2); i++ {
-		nd.Assume(p2[i] != ',')
+	for _, p := range []string{p1, p2} {
+		for i := 0; i < len(p); i++ {
+			nd.Assume(p[i] != ',' && p[i] != 'a' && p[i] != 'b')
+			// a single space as separator stands for any run of whitespace
+			nd.Assume(p[i] != ' ' && p[i] != '\n' && p[i] != '\t' && p[i] != '\r' && p[i] != '\f' && p[i] != '\v' && p[i] < 0x80)
+		}
 	}
 	s := p1 + sep + p2
-	v, err := fEval("s | split: ','", map[string]any{"s": s})
+	b := map[string]any{"s": s, "sep": sep}
+	v, err := fEval("s | split: sep", b)
 	nd.Assert(err == nil, "split-no-error")
 	parts, ok := v.([]string)
 	nd.Assert(ok && len(parts) == 2 && parts[0] == p1 && parts[1] == p2, "split-pieces")
-	v, err = fEval("s | split: ',' | join: ','", map[string]any{"s": s})
+	v, err = fEval("s | split: sep | join: sep", b)
 	nd.Assert(err == nil && v.(string) == s, "split-join-roundtrip")
 	nd.Reach("C16.splitjoin")
 }
